@@ -357,6 +357,7 @@ def check(pid, tier):
 
     stats = {"evaluations": 0, "distinct": set(), "mismatches": 0, "oracle_failures": 0, "skipped": 0,
              "lines": 0, "distribution": {}, "samples": [], "families": []}
+    per_profile = {}
     corr_broken = []      # descriptions of correspondence streams that no longer check
     found_failing_input = False
 
@@ -447,6 +448,10 @@ def check(pid, tier):
                                               {"impl": impl[idx], "model": model[idx]})
                             violations.append((r, ""))
                             reported += 1
+                    # properties that demand identical behaviour with and without overflow checks:
+                    # remember the implementation's lines per profile and compare them below
+                    if cfg.get("profiles_must_agree") and label.startswith("generated"):
+                        per_profile.setdefault(name, {})[prof] = (cases, impl)
                     # mismatches without an oracle failure on the same case
                     pure = [cid for cid in mism if cid not in ofail]
                     if pure:
@@ -458,6 +463,22 @@ def check(pid, tier):
                             lines = [cases[i] for i in groups[cid]]
                             small = shrink(name, prof, lines, one_case_runner(name, prof, wdir, "mismatch"), budget_s=10)
                             corr_broken.append((name, prof, "%d case(s) where implementation and model differ; first: %s" % (len(pure), cid), small, impl[idx], model[idx]))
+
+    # 3c. checked and wrapping builds must behave alike (only for properties that say so)
+    for name, by_prof in per_profile.items():
+        if "dev" in by_prof and "release" in by_prof:
+            (c1, i1), (c2, i2) = by_prof["dev"], by_prof["release"]
+            if c1 == c2 and len(i1) == len(i2):
+                diff = [k for k in range(len(c1)) if i1[k] != i2[k]]
+                stats["profile_divergences"] = stats.get("profile_divergences", 0) + len(diff)
+                for k in diff[:2]:
+                    txt = "oracle: profile-divergence: overflow-checked and wrapping builds disagree on this input"
+                    if match_known(pid, txt + " " + c1[k]):
+                        known_lines.append("KNOWN-FINDING: property=%s profile divergence" % pid)
+                        continue
+                    found_failing_input = True
+                    r = replays.write(pid, name, "dev", "oracle-failure", txt, [c1[k]], {"impl(dev)": i1[k], "impl(release)": i2[k]})
+                    violations.append((r, ""))
 
     # 4. verdicts
     if (proof_broken or corr_broken or tie_problems) and not found_failing_input and not tie_problems:
@@ -516,6 +537,7 @@ def check(pid, tier):
             "case_lines": stats["lines"],
             "disagreements_checked": stats["mismatches"], "oracle_failures": stats["oracle_failures"],
             "oracle_skipped_out_of_domain": stats["skipped"],
+            "profile_divergences": stats.get("profile_divergences", 0),
             "streams": stats["families"], "distribution": dict(sorted(stats["distribution"].items())[:60]),
             "tie_problems": tie_problems,
         },
